@@ -113,6 +113,37 @@ def judge_fixed(rec, counts, epochs):
             return
 
 
+def pinned_model(counts, offset, penalty, mc, mo):
+    """Sequential model of the two recorded defects of the pinned PELT loop (nothing else): a zero-count
+    segment costs 0*log(0) = NaN and is never chosen, and the pruning step drops start points whose current
+    segment is still infeasible (cost inf).  Returns (breaks, saw_nan, pruned_infeasible)."""
+    N = np.append(0, np.cumsum(offset)); Y = np.append(0, np.cumsum(counts))
+    dim = len(counts)
+    F = np.empty(dim + 1); F[0] = -penalty
+    C = {0: []}
+    cost = {}
+    saw_nan = pruned_inf = False
+    with np.errstate(all="ignore"):
+        for j in range(1, dim + 1):
+            argmin, minval = 0, np.inf
+            for i in C:
+                n = N[j] - N[i]; y = Y[j] - Y[i]
+                fl = inf if (n < mo or y < mc) else -2 * y * (np.log(y) - np.log(n) - 1)
+                cost[i] = F[i] + fl + penalty
+                if cost[i] != cost[i]:
+                    saw_nan = True
+                if cost[i] < minval:
+                    minval = cost[i]; argmin = i
+            F[j] = minval
+            for i in list(C):
+                if cost[i] > F[j] + penalty:
+                    if cost[i] == inf:
+                        pruned_inf = True
+                    C.pop(i)
+            C[j] = C[argmin] + [argmin]
+    return C[dim] + [dim], saw_nan, pruned_inf
+
+
 def judge_poisson(rec, counts, offset, penalty, mc, mo):
     counts = np.asarray(counts, dtype=float)
     offset = np.asarray(offset, dtype=float)
@@ -148,7 +179,16 @@ def judge_poisson(rec, counts, offset, penalty, mc, mo):
     gap = cost - opt
     rec.maxi(f"poisson_gap:{cls}", gap)
     if gap > 1e-9 * max(1.0, abs(opt)):
-        rec.violation(f"poisson-not-optimal:{cls}",
+        # known findings are keyed by mechanism: the result is exactly what the two recorded defects
+        # produce AND one of them was triggered on this input; anything else is unexplained
+        try:
+            mb, saw_nan, pruned_inf = pinned_model(counts, offset, penalty, mc, mo)
+        except KeyError:
+            mb, saw_nan, pruned_inf = None, False, False
+        cause = "+".join(c for c, on in (("nan-loss", saw_nan), ("pruned-infeasible", pruned_inf)) if on)
+        how = f"as-recorded-defects:{cause}" if (mb == br and cause) else "unexplained"
+        rec.count(f"poisson_not_optimal:{how}")
+        rec.violation(f"poisson-not-optimal:{cls}:{how}",
                       f"counts {counts.tolist()[:12]} offset {offset.tolist()[:12]} penalty {penalty} min ({mc},{mo}): "
                       f"returned {br} costs {cost:.6g}, optimum {opt:.6g}")
 
